@@ -372,7 +372,10 @@ pub fn check_seen(c: &ReqCase, seen: &Seen, leg: &str, rep: &mut CaseReport) {
                 }
             }
             None => {
-                if form == 0 || form == 2 {
+                // an authority-form string such as "*" parses as another URI form: the expectation only
+                // applies when the request's URI really carries this host as its authority
+                let has_authority = c.build().map(|r| r.uri().host().map(|h| h.eq_ignore_ascii_case(c.host_str())).unwrap_or(false)).unwrap_or(false);
+                if (form == 0 || form == 2) && has_authority {
                     let scheme = if form == 0 { c.scheme_str() } else { "" };
                     let host = c.host_str();
                     let mut allowed: Vec<String> = vec![];
